@@ -54,4 +54,23 @@ for p in props:
     else:
         m["not_applicable"].append({"property_id": p, "reason": PENDING})
 json.dump(m, open(os.path.join(V, "MANIFEST.json"), "w"), indent=1, ensure_ascii=False)
+# root of the Lean library: the obligation modules (PROPS) of every registered plugin
+import re, sys
+sys.path.insert(0, os.path.join(V, "lib")); sys.path.insert(0, os.path.join(V, "props")); sys.path.insert(0, os.path.join(V, "xlate"))
+mods = []
+for p in reg:
+    src = open(os.path.join(V, "props", p + ".py")).read()
+    g = {}
+    mm = re.search(r"^PROPS\s*=\s*(\[.*?\])", src, flags=re.S | re.M)
+    lst = eval(mm.group(1)) if mm else []
+    # plugins may extend PROPS programmatically: import to be sure
+    try:
+        mod = __import__(p)
+        lst = list(getattr(mod, "PROPS", lst))
+    except Exception as e:
+        print("note: could not import props/%s.py (%s); using the literal PROPS" % (p, e))
+    for rel in lst:
+        mods.append(rel[:-5].replace("/", "."))
+root = "-- Root of the `Bee2V` library: the obligation modules of every registered check\n-- (GENERATED by tools_manifest.py; `./check --setup` builds this).\n" + "".join("import %s\n" % x for x in sorted(set(mods)))
+open(os.path.join(V, "lean", "Bee2V.lean"), "w").write(root)
 print("registered:", reg)
